@@ -119,6 +119,16 @@ Section Num.
   Definition canonicalize (p : params) (r : coll id) : params :=
     if validate p r then p else nearest p r.
 
+  (* Model.create(parameters, random_variables) and Model.replace(...): whichever of
+     'parameters' / 'random_variables' is among the replaced attributes (the other one is taken from
+     self), the initial estimates ALWAYS go through _canonicalize_parameter_estimates with the
+     resulting pair. *)
+  Definition model_replace (p_old : params) (r_old : coll id)
+                           (p_new : option params) (r_new : option (coll id)) : params * coll id :=
+    let parameters := match p_new with Some p => p | None => p_old end in
+    let random_variables := match r_new with Some r => r | None => r_old end in
+    (canonicalize parameters random_variables, random_variables).
+
   (* ---- estimation.py: _scale_matrix(A) given chol = np.linalg.cholesky(A) (oracle) ------------- *)
   Definition scale_matrix (chol : fmatrix) : fmatrix :=
     let n := length chol in
